@@ -12,8 +12,10 @@ META = dict(
                "segments; open and closed, self-intersecting polylines; Offset of simple contours both orientations and signs) is judged in Coq at "
                "sample points classified by their EXACT distance to the input (inside hw-margin must be filled, outside hw+margin and outside "
                "every join/cap zone must be empty).",
-    level_note="partial: stroke_region (union of the blocks = neighbourhood) is checked per output, not proved. Inputs are polylines on "
-               "power-of-two grids; curved inputs are not generated. Result arcs are flattened by Go at 2^-10 (part of the margin).",
+    level_note="partial: stroke_region (union of the blocks = neighbourhood) is checked per output, not proved. Polyline inputs on "
+               "power-of-two grids are judged by their exact distance; curved inputs (Bezier/arc paths, closed ellipses and blobs, plates "
+               "with holes for Offset) are judged against a dense sampling made by the harness (trusted; its deviation is part of the "
+               "margin), round joins only. Result arcs are flattened by Go at 2^-10 (part of the margin).",
     coq_targets=["theories/Corr/C04.vo"],
     harness=["c04"],
 )
